@@ -179,12 +179,13 @@ def run_trace_shard(sh, col):
         if kind == "image":
             plans.append((cm.image_case(cfg), max(4, sh["ncases"] // 3)))
         plans.append((cm.trace_case(cfg, max_ops=36 if tier == "quick" else 60), sh["ncases"]))
-        state = dict(n=0)
+        # elaborate/compile outside Hypothesis: Migen walks the whole Python stack for every Signal it creates
+        cm.get_sim(cfg)
+        if ci == 0:
+            for case in draw_examples(plans[0][0], ndiff + 1, sh["seed"] + 7)[-ndiff:]:
+                col.diff_cycles += diff_trace(cfg, case)
         for pi, (strategy, n) in enumerate(plans):
-            def test(case, cfg=cfg, state=state):
-                if ci == 0 and state["n"] < ndiff:
-                    col.diff_cycles += diff_trace(cfg, case)
-                state["n"] += 1
+            def test(case, cfg=cfg):
                 run, fs, classes, nontrivial = eval_trace(cfg, case)
                 col.case(dict(cfg=cfg, case=case), classes=sorted(classes) + [cfg["memtype"], "src_generator", "shape_" + case.get("shape", "ctrl"), "weg_%s" % cfg["weg"],
                                                                              "dq%d" % cfg["databits"], "verbosity%d" % cfg.get("verbosity", 0)],
@@ -214,12 +215,12 @@ def run_core_shard(sh, col):
     cfgs = draw_cfgs(cm.model_cfg(core=True, **kw), sh["ncfg"], sh["seed"])
     for ci, cfg in enumerate(cfgs):
         ccfg = cm.core_cfg_of(cfg)
-        state = dict(n=0)
+        stim_strategy = cc.core_stim(ccfg, max_ops=16 if tier == "quick" else 40)
+        cm.get_sim(cfg)
+        if ci == 0:
+            col.diff_cycles += diff_core(cfg, draw_examples(stim_strategy, 2, sh["seed"] + 7)[-1])
 
-        def test(stim, cfg=cfg, state=state):
-            if ci == 0 and state["n"] < 1:
-                col.diff_cycles += diff_core(cfg, stim)
-            state["n"] += 1
+        def test(stim, cfg=cfg):
             run, fs, classes, nontrivial = eval_core(cfg, stim)
             col.case(dict(cfg=cfg, stim=stim), classes=sorted(classes) + [cfg["memtype"], "src_controller", "weg_%s" % cfg["weg"], "dq%d" % cfg["databits"]], nontrivial=nontrivial,
                      sample=dict(cfg={k: cfg[k] for k in ("memtype", "base", "clk_freq", "databits", "nbanks", "nrows", "ncols", "weg")}, init=cfg.get("init"), core=cfg["core"],
@@ -229,7 +230,7 @@ def run_core_shard(sh, col):
             if "controller_trace_illegal" in classes:
                 col.stats["controller_traces_outside_domain"] = col.stats.get("controller_traces_outside_domain", 0) + 1
             return col.filter(fs)
-        found = hyp_search(test, cc.core_stim(ccfg, max_ops=16 if tier == "quick" else 40), sh["seed"] * 100 + ci, sh["ncases"], shrink=False)
+        found = hyp_search(test, stim_strategy, sh["seed"] * 100 + ci, sh["ncases"], shrink=False)
         if found:
             stim, fs = found
             target = (fs[0]["clause"], fs[0]["key"])
